@@ -172,3 +172,94 @@ def run(ctx):
                     if m and s.rhs.strip().startswith('('):
                         consts.add(int(m.group(1)))
     ctx.ob('C13.r4', BQ.name, 'skip is 0 without a cursor and 1 with one', consts == {0, 1}, got=sorted(consts))
+
+    # r5 seek keys: where an un-cursored query starts iterating
+    seek_keys(ctx, BQ)
+
+
+def seek_keys(ctx, BQ):
+    """The four (order, cursor) cases of build_query_options are the closures handed to Option::map_or_else.  Each returns
+    (from_key, Direction, skip).  Ascending without a cursor must start AT the prefix (smallest key with it); descending without a
+    cursor must start at a key that is >= every key with the prefix: the reviewed idiom is prefix ++ [0xff; n] (concat of the cloned
+    prefix and from_elem(u8::MAX, n)), which is such a bound only if n >= 1 for every accepted args_len (every index key continues
+    past the script with a non-empty (number, index, ...) suffix whose first byte is < 0xff)."""
+    P = ctx.prog
+    cases = {}
+    for c in P.closures_of(BQ):
+        du = DefUse(c)
+        for bid, blk in c.blocks.items():
+            for st in blk.stmts:
+                if st.kind == 'assign' and st.lhs.strip() == '_0' and st.rhs.strip().startswith('('):
+                    parts = [x.strip() for x in st.rhs.strip()[1:-1].split(', ')]
+                    if len(parts) != 3:
+                        continue
+                    dirs = {o[3].strip() for o in du.origins(parts[1]) if o[0] == 'agg'} | {d for (k, b, ob) in du.defs.get(int(re.findall(r'_(\d+)', parts[1])[0]), []) if k == 'assign' for d in [ob.rhs.strip()] if 'Direction::' in d}
+                    d = 'Reverse' if any('Direction::Reverse' in x for x in dirs) else 'Forward' if any('Direction::Forward' in x for x in dirs) else None
+                    skip = parts[2]
+                    cases[(d, skip)] = (c, du, parts[0], st)
+    ctx.floor('C13.r5', 'build_query_options (direction, skip) cases', len(cases), 4)
+    for key in (('Forward', 'const 0_usize'), ('Reverse', 'const 0_usize'), ('Forward', 'const 1_usize'), ('Reverse', 'const 1_usize')):
+        if key not in cases:
+            raise Inconclusive('build_query_options: case %r not found (have %r)' % (key, sorted(cases)))
+    # ascending, no cursor: exactly the prefix
+    c, du, k0, st = cases[('Forward', 'const 0_usize')]
+    org = du.origins(k0, stop_at_calls=True)
+    calls = sorted({o[1] for o in org if o[0] == 'call'})
+    ctx.ob('C13.r5', c.name, 'ascending un-cursored iteration starts at the search prefix itself', calls == ['<Vec as Clone>::clone'] and not any(o[0] == 'op' for o in org), at=st.span, got=calls)
+    # cursor cases: start at the cursor key
+    for d in ('Forward', 'Reverse'):
+        c, du, k0, st = cases[(d, 'const 1_usize')]
+        org = du.origins(k0, stop_at_calls=False)
+        ctx.ob('C13.r5', c.name, 'cursored iteration (%s) starts at the cursor key' % d, any(o[0] == 'call' and o[1].endswith('JsonBytes::as_bytes') for o in org), at=st.span)
+    # descending, no cursor
+    c, du, k0, st = cases[('Reverse', 'const 0_usize')]
+    org = du.origins(k0, stop_at_calls=True)
+    calls = sorted({o[1] for o in org if o[0] == 'call'})
+    concat = [t for b, t in P.call_sites(c, lambda k, t: k == 'slice::concat')]
+    fe = [t for b, t in P.call_sites(c, lambda k, t: 'from_elem' in t.callee)]
+    clone = [t for b, t in P.call_sites(c, lambda k, t: k == '<Vec as Clone>::clone')]
+    shape = False
+    n_min = None
+    if len(concat) == 1 and len(fe) == 1 and len(clone) == 1 and any('concat' in x for x in calls):
+        arr = du.origins(concat[0].args[0], stop_at_calls=True)
+        elems = sorted({o[1] for o in arr if o[0] == 'call'})
+        # the array literal: [clone(prefix), from_elem(0xff, n)] in this order
+        lit = [ob.rhs.strip() for l, ds in du.defs.items() for (k, b, ob) in ds if k == 'assign' and re.match(r'^\[(move |copy )?_\d+, (move |copy )?_\d+\]$', ob.rhs.strip())]
+        order_ok = False
+        if len(lit) == 1:
+            a, b2 = re.findall(r'_(\d+)', lit[0])
+            order_ok = clone[0].dest.strip() == '_' + a and fe[0].dest.strip() == '_' + b2
+        shape = order_ok and fe[0].args[0].strip() in ('const u8::MAX', 'const 255_u8', 'const 255u8')
+        # padding length: n = C - args_len (+ k)
+        n_org = du.origins(fe[0].args[1], stop_at_calls=True)
+        ops = sorted(o[1] for o in n_org if o[0] == 'op')
+        addk = 0
+        if ops == ['CheckedSub'] or ops == ['Sub']:
+            pass
+        elif sorted(set(ops)) in (['CheckedAdd', 'CheckedSub'], ['Add', 'Sub']):
+            ks = [int(m.group(1)) for o in n_org if o[0] == 'const' for m in [re.match(r'const (\d+)_usize', o[1])] if m]
+            addk = min(ks) if ks else 0
+        else:
+            shape = False
+        # the guard on args_len in the parent: Gt (accepts args_len == C) or Ge (args_len < C)
+        gts = [x for x in ctx.cmp_stmts(BQ) if x[2] in ('Gt', 'Ge') and x[4].strip() == 'const _']
+        if len(gts) == 1:
+            n_min = (0 if gts[0][2] == 'Gt' else 1) + addk
+    ctx.ob('C13.r5', c.name, 'descending un-cursored iteration starts at prefix ++ [0xff; n] (an upper bound of the prefix range)', shape, at=st.span, got=calls)
+    if shape and n_min is not None:
+        ctx.ob('C13.r5', c.name, 'the 0xff padding is non-empty for every accepted args_len (n = MAX_PREFIX_SEARCH_SIZE - args_len >= 1)', n_min >= 1, at=fe[0].span, n_min=n_min)
+    elif shape:
+        raise Inconclusive('build_query_options: args_len bound not recognised')
+    if shape:
+        # prefix ++ [0xff; MAX - args_len + k] is >= every key of the prefix range only if no indexed script has args that continue
+        # past MAX_PREFIX_SEARCH_SIZE bytes (a longer all-0xff continuation sorts above the padded key): the bound has to be
+        # enforced where scripts enter the index.
+        SS = ctx.body('<BlockFilterRpcImpl as BlockFilterRpc>::set_scripts')
+        bounded = False
+        for b in [SS] + P.closures_of(SS):
+            bdu = DefUse(b)
+            for x in ctx.cmp_stmts(b):
+                if x[2] in ('Gt', 'Ge', 'Lt', 'Le') and any(o[0] == 'call' and o[1].endswith('Script::args') for opnd in (x[3], x[4]) for o in bdu.origins(opnd, stop_at_calls=False)):
+                    bounded = True
+        ctx.ob('C13.r5', c.name, 'the 0xff padding bounds every index key: indexed script args are limited to MAX_PREFIX_SEARCH_SIZE where scripts are registered (set_scripts)',
+               bounded, at=fe[0].span)
